@@ -434,7 +434,7 @@ func (x *exec) round(rep *sim.Replica, f *fault, randStep uint64) (rr roundResul
 			}
 		}
 	}
-	rr.Panics = verifrt.TakePanicsQuiesced()
+	rr.Panics = verifrt.TakePanics()
 	// tracker and importer share one clock: whatever time the round took on the importer's side
 	// (simulated retry and rate-limit waits) has passed on the tracker too
 	if clk := x.t.Clk(); *clk < rep.Wall {
